@@ -567,7 +567,19 @@ class SReal:
         raise Unsupported("index() of a symbolic value")
 
     def __round__(a, n=None):
-        raise Unsupported("round() of a symbolic value")
+        if n is None or not isinstance(n, int):
+            raise Unsupported("round() of a symbolic value to an integer")
+        # round(x, n): an uninterpreted function of x with the defining bound |round(x, n) - x| <= 0.5 * 10**-n
+        # (which value in that band is chosen -- ties, binary representation -- is left open: sound for unsat)
+        t = z3.simplify(a.t)
+        if z3.is_rational_value(t):
+            from fractions import Fraction
+            q = Fraction(t.numerator_as_long(), t.denominator_as_long())
+            return SReal(rv(round(float(q), n)))
+        v = Pure.app("ROUND%d" % n, [t])
+        half = z3.RealVal(5) / z3.RealVal(10 ** (n + 1)) if n >= 0 else z3.RealVal(5 * 10 ** (-n - 1))
+        Pure.axiom(z3.And(v - t <= half, t - v <= half), v)
+        return SReal(v)
 
     def __repr__(a):
         return "S(%s)" % str(a.t).replace("\n", " ")[:70]
